@@ -21,6 +21,7 @@ Hypothesis HPass : forall f s, P (SPass f s).
 Hypothesis HAlias : forall y s, P (SAlias y s).
 Hypothesis HOther : forall f, P (SOther f).
 Hypothesis HIf : forall a b, Forall P a -> Forall P b -> P (SIf a b).
+Hypothesis HLam : forall m, P (SLambdaMut m).
 Fixpoint stmt_ind' (s : stmt) : P s :=
   let fix all (l : list stmt) : Forall P l :=
     match l with [] => Forall_nil P | x :: l' => Forall_cons x (stmt_ind' x) (all l') end in
@@ -30,6 +31,7 @@ Fixpoint stmt_ind' (s : stmt) : P s :=
   | SItemSet => HItem | SMethod s m => HMeth s m | SPass f s => HPass f s
   | SAlias y s => HAlias y s | SOther f => HOther f
   | SIf a b => HIf a b (all a) (all b)
+  | SLambdaMut m => HLam m
   end.
 End StmtInd.
 
@@ -71,6 +73,14 @@ Proof.
   cbn [names_ok]. rewrite !E. reflexivity.
 Qed.
 End Compile.
+
+Lemma flat_if a b : flat (SIf a b) = flat_block a && flat_block b.
+Proof.
+  assert (E : forall l, (fix go (l : list stmt) : bool :=
+             match l with [] => true | x :: l' => flat x && go l' end) l = flat_block l).
+  { induction l as [|x l IH]; [reflexivity|]. cbn [flat_block forallb]. now rewrite IH. }
+  cbn [flat]. rewrite !E. reflexivity.
+Qed.
 
 (* ---- the walker's state while it walks the wrapper's own scope ---- *)
 Section Main.
@@ -484,6 +494,8 @@ Proof.
     rewrite absint_if. destruct (absint_block a k) as [k1 f1]. cbn [fst snd] in *.
     destruct (absint_block b k1) as [k2 f2]. cbn [fst snd] in *.
     split; [exact G2|]. now rewrite map_app, F1, F2.
+  - (* SLambdaMut: outside the fragment *)
+    intros m nm im calls tn nx rev k G Hok. discriminate Hok.
 Qed.
 
 End Main.
@@ -550,6 +562,7 @@ Proof.
     destruct (shape_block a Ha k) as [A B]. destruct (absint_block a k) as [k1 f1]. cbn [fst snd] in *.
     destruct (shape_block b Hb k1) as [C D]. destruct (absint_block b k1) as [k2 f2]. cbn [fst snd] in *.
     split; [eapply le_k_trans; eauto|]. rewrite app_length. lia.
+  - intros m k0. cbn. split; [apply le_k_refl|reflexivity].
 Qed.
 
 Lemma Forall_all {A} (P : A -> Prop) (H : forall x, P x) l : Forall P l.
@@ -582,21 +595,22 @@ Proof.
 Qed.
 
 Definition SoundS (fuel : nat) : Prop := forall s off k st r,
-  le_abs k st -> In r (exec_stmt fuel off s st) ->
+  flat s = true -> le_abs k st -> In r (exec_stmt fuel off s st) ->
   Sound_out off (ncalls s) (fst (absint s k)) (snd (absint s k)) r.
 
 Lemma sound_block fuel : SoundS fuel -> forall l off k st r,
-  le_abs k st -> In r (exec_block fuel l off st) ->
+  flat_block l = true -> le_abs k st -> In r (exec_block fuel l off st) ->
   Sound_out off (ncalls_block l) (fst (absint_block l k)) (snd (absint_block l k)) r.
 Proof.
-  intros HS. induction l as [|x l IH]; intros off k st r Hle Hin.
+  intros HS. induction l as [|x l IH]; intros off k st r Hfl Hle Hin.
   - cbn in Hin. destruct Hin as [<-|[]]. split; [exact Hle|intros e []].
-  - cbn [exec_block] in Hin. apply in_flat_map in Hin as (r1 & H1 & Hin).
+  - cbn [flat_block forallb] in Hfl. apply Bool.andb_true_iff in Hfl as [Hfx Hfl].
+    cbn [exec_block] in Hin. apply in_flat_map in Hin as (r1 & H1 & Hin).
     apply in_map_iff in Hin as (r2 & <- & H2).
-    destruct (HS x off k st r1 Hle H1) as [L1 E1].
+    destruct (HS x off k st r1 Hfx Hle H1) as [L1 E1].
     destruct (shape_all x k) as [_ Len1].
     cbn [absint_block ncalls_block]. destruct (absint x k) as [k1 f1]. cbn [fst snd] in *.
-    destruct (IH (off + ncalls x)%nat k1 (fst r1) r2 L1 H2) as [L2 E2].
+    destruct (IH (off + ncalls x)%nat k1 (fst r1) r2 Hfl L1 H2) as [L2 E2].
     destruct (absint_block l k1) as [k2 f2]. cbn [fst snd] in *.
     split; [exact L2|]. intros e He. apply in_app_or in He as [He|He].
     + destruct (E1 e He) as [R F]. split; [lia|]. rewrite app_nth1 by lia. exact F.
@@ -606,7 +620,7 @@ Qed.
 
 Lemma sound_all : forall fuel, SoundS fuel.
 Proof.
-  induction fuel as [|fuel IH]; intros s off k st r Hle Hin; [destruct Hin|].
+  induction fuel as [|fuel IH]; intros s off k st r Hfl Hle Hin; [destruct Hin|].
   destruct Hle as [La Lk].
   assert (one : forall pa pk : bool, Sound_out off 1 k
             [(pa && fst k, pk && snd k, pa && negb (fst k), pk && negb (snd k))]
@@ -626,7 +640,7 @@ Proof.
   { split; cbn; auto; discriminate. }
   assert (TAA : le_abs (taint_abs SA k) st).
   { split; cbn; auto; discriminate. }
-  destruct s as [c n kw pa pk|x|x|x| |x m|f x|y x|f|a b].
+  destruct s as [c n kw pa pk|x|x|x| |x m|f x|y x|f|a b|m]; [| | | | | | | | | |discriminate Hfl].
   - cbn in Hin. destruct Hin as [<-|[]]. apply one.
   - cbn in Hin. destruct Hin as [<-|[]]. apply quiet, TA.
   - cbn in Hin. destruct Hin as [<-|[]]. apply quiet, TA.
@@ -636,7 +650,8 @@ Proof.
   - destruct x; cbn in Hin; destruct Hin as [<-|[]]; apply plain; [split; assumption|apply (TA SK)].
   - destruct x; cbn in Hin; destruct Hin as [<-|[]]; apply quiet; [split; assumption|exact TK].
   - cbn in Hin. destruct Hin as [<-|[]]. apply plain. split; assumption.
-  - rewrite exec_if in Hin. rewrite absint_if, ncalls_if.
+  - rewrite flat_if in Hfl. apply Bool.andb_true_iff in Hfl as [Hfa Hfb].
+    rewrite exec_if in Hin. rewrite absint_if, ncalls_if.
     destruct (shape_b a k) as [Da Lena].
     pose proof (sound_block fuel IH a off k st) as SA_.
     pose proof (sound_block fuel IH b (off + ncalls_block a)%nat (fst (absint_block a k)) st) as SB_.
@@ -644,11 +659,11 @@ Proof.
     destruct (shape_b b k1) as [Db Lenb].
     destruct (absint_block b k1) as [k2 f2]. cbn [fst snd] in *.
     apply in_app_or in Hin as [Hin|Hin].
-    + destruct (SA_ r (conj La Lk) Hin) as [L E]. split.
+    + destruct (SA_ r Hfa (conj La Lk) Hin) as [L E]. split.
       * eapply le_abs_mono; [exact Db|exact L].
       * intros e He. destruct (E e He) as [R F]. split; [lia|]. rewrite app_nth1 by lia. exact F.
     + assert (L0 : le_abs k1 st) by (eapply le_abs_mono; [exact Da|split; assumption]).
-      destruct (SB_ r L0 Hin) as [L E]. split; [exact L|].
+      destruct (SB_ r Hfb L0 Hin) as [L E]. split; [exact L|].
       intros e He. destruct (E e He) as [R F]. split; [lia|]. rewrite app_nth2 by lia.
       replace (ev_site e - off - length f1)%nat with (ev_site e - (off + ncalls_block a))%nat by lia. exact F.
 Qed.
@@ -676,6 +691,24 @@ Proof.
   cbn [drain v_todo v_calls]. rewrite <- F. reflexivity.
 Qed.
 
+Lemma names_ok_flat va vk : forall s, names_ok va vk s = true -> flat s = true.
+Proof.
+  apply (stmt_ind' (fun s => names_ok va vk s = true -> flat s = true)); try (intros; reflexivity).
+  - intros a b Ha Hb H. rewrite names_ok_if in H. apply Bool.andb_true_iff in H as [H1 H2].
+    rewrite flat_if. apply Bool.andb_true_iff. split.
+    + unfold block_ok in H1. unfold flat_block. rewrite forallb_forall in *. intros x Hx.
+      rewrite Forall_forall in Ha. apply Ha; auto.
+    + unfold block_ok in H2. unfold flat_block. rewrite forallb_forall in *. intros x Hx.
+      rewrite Forall_forall in Hb. apply Hb; auto.
+  - intros m H. discriminate H.
+Qed.
+
+Lemma block_ok_flat va vk l : block_ok va vk l = true -> flat_block l = true.
+Proof.
+  unfold block_ok, flat_block. rewrite !forallb_forall. intros H x Hx.
+  apply (names_ok_flat va vk). auto.
+Qed.
+
 (* C05, flag soundness: for every wrapper body of the grammar, of any length
    and nesting, every execution path and every call it executes:
    - a star argument the walker marks as used is the caller's untouched object
@@ -691,7 +724,7 @@ Proof.
   intros Hne Hok Hv fuel st' evs e Hin He.
   rewrite (visitor_flags_absint va vk l Hne Hok) in Hv. injection Hv as <-.
   assert (L0 : le_abs (true, true) (mkSem true true)) by (split; reflexivity).
-  destruct (sound_block fuel (sound_all fuel) l 0 (true, true) _ _ L0 Hin) as [_ E].
+  destruct (sound_block fuel (sound_all fuel) l 0 (true, true) _ _ (block_ok_flat va vk l Hok) L0 Hin) as [_ E].
   destruct (E e He) as [R F]. cbn [snd] in *. rewrite Nat.sub_0_r in F.
   destruct (shape_b l (true, true)) as [_ Len]. split; [lia|exact F].
 Qed.
@@ -745,3 +778,22 @@ Example sample_ok :
           (false, false, false, false); (false, false, true, false)] /\
   length (exec_block 2 sample 0 (mkSem true true)) = 2%nat.
 Proof. vm_compute. repeat split. Qed.
+
+(* outside the fragment the statement is FALSE of the faithful walker model: a
+   mutation of **kwargs in a nested scope that runs before the forwarding call is
+   processed only after it (deferred), so the later call is still marked as used.
+   Witness:  def w( *args, **kwargs ): (lambda: kwargs.m(c, c))(); callee( **kwargs )  *)
+Definition nested_witness : list stmt := [SLambdaMut 9; SFwd 5 0 [] false true]%N.
+
+Theorem flags_sound_nested_refuted :
+  exists fls st' evs e,
+    visitor_flags 1 2 nested_witness = Some fls /\
+    In (st', evs) (exec_block 1 nested_witness 0 (mkSem true true)) /\ In e evs /\
+    ~ flag_sound (nth (ev_site e) fls dflags) e.
+Proof.
+  exists [(false, false, false, false); (false, true, false, false); (false, false, false, false)],
+         (mkSem true false),
+         [mkEvent 0 None None; mkEvent 1 None (Some false)], (mkEvent 1 None (Some false)).
+  split; [vm_compute; reflexivity|]. split; [vm_compute; auto|]. split; [cbn; auto|].
+  cbn. intros (_ & H & _). specialize (H eq_refl). discriminate H.
+Qed.
